@@ -2,7 +2,7 @@
   C04, object-layer memory safety as theorems — third continuation (same statement shape `Safe` as C04_allocsafe{,2,3}.lean:
   `ok = true`, destination well formed, every other variable untouched, value-level view = the list-level result; plus the
   integer identity).  Property theorems only; helper lemmas live in MpirProofs/Lemmas/AllocSafeCfdiv2.lean (mpz/cfdiv_q_2exp.c),
-  AllocSafeAorsmul.lean (mpz/aorsmul_i.c, aorsmul.c), AllocSafeMulC.lean (mpz/mul.c), AllocSafeTdiv.lean (mpz/tdiv_q.c, tdiv_r.c), AllocSafeMpf.lean (mpf/urandomb.c), AllocSafeSqrt.lean (mpz/sqrt.c), AllocSafeTdivQr.lean (mpz/tdiv_qr.c).
+  AllocSafeAorsmul.lean (mpz/aorsmul_i.c, aorsmul.c), AllocSafeMulC.lean (mpz/mul.c), AllocSafeTdiv.lean (mpz/tdiv_q.c, tdiv_r.c), AllocSafeMpf.lean (mpf/urandomb.c), AllocSafeSqrt.lean (mpz/sqrt.c), AllocSafeTdivQr.lean (mpz/tdiv_qr.c), AllocSafeSqrtrem.lean (mpz/sqrtrem.c).
 
   Models: Mpir/Model/AllocSafeMpz3.lean (cfdiv_q_2exp), Mpir/Model/AllocSafeMpz4.lean (everything else here).
   Tied by ops `as3_cdiv_q_2exp`, `as3_fdiv_q_2exp` (part c04_allocsafe3) and `as4_*` (harness/ops_allocsafe4.c; ALLOC SIZ value
@@ -16,6 +16,7 @@ import MpirProofs.Lemmas.AllocSafeTdiv
 import MpirProofs.Lemmas.AllocSafeMpf
 import MpirProofs.Lemmas.AllocSafeSqrt
 import MpirProofs.Lemmas.AllocSafeTdivQr
+import MpirProofs.Lemmas.AllocSafeSqrtrem
 import MpirProofs.Props.C01_mpz
 namespace Mpir.AllocSafe
 open Mpir
@@ -338,5 +339,33 @@ example : (mpz_sqrt ex5 1 1).map (fun s => (s.ok, (s.ALLOC 1, (s.h 1).size))) = 
 example : mpz_sqrt ⟨fun _ => ⟨-1, 0, ⟨1, [4]⟩⟩, true⟩ 0 1 = none := by decide
 -- negative: a root block of one limb less — mpn_sqrtrem's store leaves it
 example : (sqrtTail (freshBlock ex5 0 1) 0 (.ptr (ex5.PTR 1)) 3 2).ok = false := by decide
+
+/-! ## mpz_sqrtrem (mpz/sqrtrem.c): two destinations -/
+
+/-- mpz_sqrtrem (mpz/sqrtrem.c), op ≥ 0, root and rem different variables, either may be op: `_mpz_realloc (rem, op_size)` gives
+    mpn_sqrtrem the `op_size` limbs it works in (op's pointer is fetched AFTER it: rem may be op and move); the root block as in
+    mpz_sqrt (fresh block of `(op_size + 1) / 2` limbs, or op copied to temporary space when it is root); both sizes are stored
+    after the call.  Both outputs well formed, nothing else touched, `root = ⌊√op⌋`, `rem = op - root²`. -/
+theorem mpz_sqrtrem_alloc_safe (s : St) (root rem op : Nat) (hs : s.ok = true)
+    (hq : OWF (s.h root)) (hr : OWF (s.h rem)) (ho : OWF (s.h op)) (hpos : 0 ≤ (s.h op).size) (hne : root ≠ rem) :
+    ∃ s', mpz_sqrtrem s root rem op = some s' ∧ s'.ok = true ∧ OWF (s'.h root) ∧ OWF (s'.h rem) ∧
+      (∀ x, x ≠ root → x ≠ rem → s'.h x = s.h x) ∧
+      view (s'.h root) = Spec.sqrt (view (s.h root)) (view (s.h op)) ∧
+      view (s'.h rem) = Spec.sqrtrem_rem (view (s.h rem)) (view (s.h op)) ∧
+      Mpz.toInt (view (s'.h root)) = ((Nat.sqrt (Mpz.toInt (view (s.h op))).toNat : Nat) : Int) ∧
+      Mpz.toInt (view (s'.h rem)) = (((Mpz.toInt (view (s.h op))).toNat -
+        Nat.sqrt (Mpz.toInt (view (s.h op))).toNat * Nat.sqrt (Mpz.toInt (view (s.h op))).toNat : Nat) : Int) := by
+  obtain ⟨s', e, S⟩ := sqrtrem_refines s root rem op hs hq hr ho hpos hne
+  have Eq := Spec.sqrt_spec (view (s.h root)) (view (s.h op)) hq.2.1 ho.2 hpos
+  have Er := Spec.sqrtrem_rem_spec (view (s.h rem)) (view (s.h op)) hr.2.1 ho.2 hpos
+  exact ⟨s', e, S.ok, ⟨S.bq, by rw [S.vq]; exact Eq.1⟩, ⟨S.br, by rw [S.vr]; exact Er.1⟩, S.frame, S.vq, S.vr,
+    by rw [S.vq]; exact Eq.2, by rw [S.vr]; exact Er.2⟩
+
+-- B^3 - 1: root into the one-limb variable 0 (fresh block of 2), remainder in place on op (variable 1)
+example : (mpz_sqrtrem ex5 0 1 1).map (fun s => (s.ok, s.ALLOC 0, (s.h 0).size, s.ALLOC 1)) = some (true, 2, 2, 3) := by decide
+-- root in place on op (temporary copy), remainder into the one-limb variable 0 (grown to op_size = 3 limbs)
+example : (mpz_sqrtrem ex5 1 0 1).map (fun s => (s.ok, s.ALLOC 1, (s.h 1).size, s.ALLOC 0)) = some (true, 3, 2, 3) := by decide
+-- negative: `_mpz_realloc (rem, op_size - 1)`
+example : (sqrtrem 1 ex5 3 0 1).map (fun s => s.ok) = some false := by decide
 
 end Mpir.AllocSafe
